@@ -2,6 +2,7 @@ package main
 
 import (
 	"fmt"
+	"hash/fnv"
 	"sort"
 )
 
@@ -135,6 +136,7 @@ func explicitDB(name string, entries []Entry) *Database {
 }
 
 type caseSpec struct {
+	Idx     int    `json:"idx"`
 	Layer   string `json:"layer"`
 	Query   *Query `json:"query"`
 	Text    string `json:"logql"`
@@ -145,8 +147,8 @@ type caseSpec struct {
 
 var selJ = []Matcher{{"job", "=", "j"}}
 
-func jsonV() Stage    { return Stage{Kind: "json", Label: "v", Val: "v"} }
-func unwrapV() Stage  { return Stage{Kind: "unwrap", Label: "v"} }
+func jsonV() Stage   { return Stage{Kind: "json", Label: "v", Val: "v"} }
+func unwrapV() Stage { return Stage{Kind: "unwrap", Label: "v"} }
 func by(suffix bool, l ...string) *Grouping {
 	return &Grouping{By: true, Labels: l, Suffix: suffix}
 }
@@ -167,28 +169,65 @@ func (w window) params(r int, stepMs int64) Params {
 	return Params{FromS: w.fromNum * int64(r) / 5, ToS: w.toNum * int64(r) / 5, StepMs: stepMs}
 }
 
+// generator enumerates the case list.  Every process (parent, workers, single-case re-runs) enumerates the same
+// list; only the cases selected by sel are materialised.
 type generator struct {
 	thorough bool
+	n        int                // running case index
+	sel      func(idx int) bool // nil = count only
 	cases    []caseSpec
-	queries  map[string]bool
+	queries  map[string]bool // query texts (parent only: countQueries)
 	layerN   map[string]int
+	keys     map[uint64]bool // uniqueness assertion (parent only)
+	dup      string
+	lastQ    *Query
+	lastText string
 }
 
 func (g *generator) add(layer string, q *Query, d *Database, p Params, cluster bool) {
-	qq := *q
-	text := qq.String()
-	g.queries[text] = true
+	idx := g.n
+	g.n++
 	g.layerN[layer]++
-	g.cases = append(g.cases, caseSpec{Layer: layer, Query: &qq, Text: text, DB: d.Name, Params: p, Cluster: cluster})
+	if g.queries != nil || g.keys != nil {
+		// the same *Query value is added for many databases in a row: render once
+		if g.lastQ != q {
+			g.lastQ, g.lastText = q, q.String()
+			if g.queries != nil {
+				g.queries[g.lastText] = true
+			}
+		}
+		if g.keys != nil {
+			h := fnv.New64a()
+			fmt.Fprintf(h, "%s|%s|%d|%d|%d|%v", g.lastText, d.Name, p.FromS, p.ToS, p.StepMs, cluster)
+			k := h.Sum64()
+			if g.keys[k] && g.dup == "" {
+				g.dup = fmt.Sprintf("%s on %s %+v", g.lastText, d.Name, p)
+			}
+			g.keys[k] = true
+		}
+	}
+	if g.sel == nil || !g.sel(idx) {
+		return
+	}
+	qq := *q
+	g.cases = append(g.cases, caseSpec{Idx: idx, Layer: layer, Query: &qq, Text: qq.String(), DB: d.Name, Params: p, Cluster: cluster})
 }
 
-func generate(thorough bool) *generator {
-	g := &generator{thorough: thorough, queries: map[string]bool{}, layerN: map[string]int{}}
+func generate(thorough bool, sel func(int) bool, count bool) *generator {
+	g := &generator{thorough: thorough, sel: sel, layerN: map[string]int{}}
+	if count {
+		g.queries = map[string]bool{}
+		g.keys = map[uint64]bool{}
+	}
+	maxEntries := 3
+	if thorough {
+		maxEntries = 4
+	}
 	ranges := []int{5, 10, 15, 60}
 
 	// ---------------- L1 ----------------
 	l1ranges := append([]int{}, ranges...)
-	timeFam := buildFamily("time", timePool, 4, append(append([]int{}, ranges...), 20, 30), true)
+	timeFam := buildFamily("time", timePool, maxEntries, append(append([]int{}, ranges...), 20, 30), true)
 	logPipes := [][]Stage{
 		nil,
 		{{Kind: "line", Op: "|=", Val: "k"}},
@@ -241,10 +280,10 @@ func generate(thorough bool) *generator {
 	for _, r := range l1ranges {
 		for _, q := range l1queries {
 			for _, w := range windows {
+				qq := *q
+				qq.RangeS = r
 				for _, st := range stepsFor(r) {
 					for _, d := range timeFam.dbs[r] {
-						qq := *q
-						qq.RangeS = r
 						g.add("L1", &qq, d, w.params(r, st), false)
 					}
 				}
@@ -256,8 +295,9 @@ func generate(thorough bool) *generator {
 		for _, fn := range []string{"rate", "count_over_time", "bytes_rate"} {
 			for _, w := range windows {
 				for _, st := range stepsFor(r) {
+					q := &Query{Matchers: selJ, Fn: fn, RangeS: r}
 					for _, d := range timeFam.dbs[r] {
-						g.add("L1x", &Query{Matchers: selJ, Fn: fn, RangeS: r}, d, w.params(r, st), false)
+						g.add("L1x", q, d, w.params(r, st), false)
 					}
 				}
 			}
@@ -269,7 +309,7 @@ func generate(thorough bool) *generator {
 	if thorough {
 		l2ranges = ranges
 	}
-	serFam := buildFamily("series", seriesPool, 4, ranges, true)
+	serFam := buildFamily("series", seriesPool, maxEntries, ranges, true)
 	aggs := []string{"sum", "min", "max", "avg", "count"}
 	if thorough {
 		aggs = append(aggs, "stddev", "stdvar")
@@ -298,10 +338,10 @@ func generate(thorough bool) *generator {
 			for _, agg := range aggs {
 				for _, gr := range groupings {
 					for _, w := range w2 {
+						qq := *in
+						qq.RangeS, qq.Agg, qq.AGroup = r, agg, gr
 						for _, st := range stepsFor(r) {
 							for _, d := range serFam.dbs[r] {
-								qq := *in
-								qq.RangeS, qq.Agg, qq.AGroup = r, agg, gr
 								g.add("L2", &qq, d, w.params(r, st), false)
 							}
 						}
@@ -339,9 +379,9 @@ func generate(thorough bool) *generator {
 					if !thorough && st != int64(r)*1000 {
 						continue
 					}
+					qq := *q
+					qq.RangeS = r
 					for _, d := range serFam.dbs[r] {
-						qq := *q
-						qq.RangeS = r
 						g.add("L3", &qq, d, window{0, 10}.params(r, st), false)
 					}
 				}
@@ -362,12 +402,12 @@ func generate(thorough bool) *generator {
 			for _, k := range []int{1, 2, 3} {
 				for _, in := range topInners {
 					for _, st := range stepsFor(r) {
-						if !thorough && st == int64(r)*500 {
+						if !thorough && st == int64(r)*2000 {
 							continue
 						}
+						qq := *in
+						qq.RangeS, qq.Top, qq.K = r, top, k
 						for _, d := range serFam.dbs[r] {
-							qq := *in
-							qq.RangeS, qq.Top, qq.K = r, top, k
 							g.add("L4", &qq, d, window{0, 10}.params(r, st), false)
 						}
 					}
@@ -388,8 +428,8 @@ func (g *generator) special(serFam, timeFam *dbFamily) {
 	for _, r := range []int{5, 15} {
 		for _, fn := range []string{"sum_over_time", "avg_over_time", "max_over_time", "last_over_time"} {
 			for _, gr := range []*Grouping{nil, without(true, "b"), without(false, "a", "b")} {
+				q := &Query{Matchers: selJ, Stages: []Stage{jsonV(), unwrapV()}, Fn: fn, RangeS: r, RGroup: gr}
 				for _, d := range serFam.dbs[r] {
-					q := &Query{Matchers: selJ, Stages: []Stage{jsonV(), unwrapV()}, Fn: fn, RangeS: r, RGroup: gr}
 					g.add("L5-unwrap-identity", q, d, window{0, 10}.params(r, int64(r)*1000), false)
 				}
 			}
@@ -479,11 +519,20 @@ func (g *generator) special(serFam, timeFam *dbFamily) {
 			{Matchers: selJ, Stages: []Stage{{Kind: "label", Label: "b", Op: "=", Val: "1"}}, Fn: "bytes_over_time", RCmp: &Cmp{">", "1"}},
 		}
 		for _, q := range cq {
+			qq := *q
+			qq.RangeS = r
 			for _, d := range serFam.dbs[r] {
-				qq := *q
-				qq.RangeS = r
 				g.add("L5-cluster", &qq, d, window{0, 10}.params(r, int64(r)*1000), true)
 			}
+		}
+	}
+	// (h) shapes the SQL path does not take or the planner rejects: listed as unsupported, never judged
+	for _, q := range []*Query{
+		{Matchers: selJ, Stages: []Stage{{Kind: "unwrap", Label: "b"}}, Fn: "sum_over_time", RangeS: 5},                               // unwrap of a stored label without a parser stage
+		{Matchers: selJ, Fn: "absent_over_time", RangeS: 5},                                                                           // evaluated by the in-process engine (C09)
+	} {
+		for _, d := range serFam.dbs[5][:3] {
+			g.add("L5-unsupported", q, d, window{0, 10}.params(5, 5000), false)
 		}
 	}
 	// (g) second matcher / regex matcher
